@@ -96,7 +96,7 @@ Definition fs_set (f : fs) (p : path) (n : node) : fs := (p, n) :: f.
 
 Inductive xerr :=
 | XOutside        (* "... is outside of ..." *)
-| XSymlinkDir     (* "no symbolic link allowed between ..." *)
+| XSymlinkDir     (* "no symbolic link allowed between ..." or ELOOP/ENOTDIR from the Lstat walk *)
 | XNoParent       (* ENOENT / ENOTDIR from the kernel *)
 | XExists         (* EISDIR, ENOTDIR, ENOTEMPTY ... an object of the wrong kind is in the way *)
 | XAbsLink        (* absolute link target: not modelled (needs the absolute base) *)
@@ -119,14 +119,26 @@ Fixpoint strip_prefix (pre p : path) : option path :=
 Definition is_link (o : option node) : bool :=
   match o with Some (NLink _) => true | _ => false end.
 
-(* resolveRelToBase's loop: no proper, non-empty prefix of the path may be a symlink *)
+Definition is_file (o : option node) : bool :=
+  match o with Some (NFile _ _) => true | _ => false end.
+
+(* resolveRelToBase's loop, os.Lstat(base/dir) for every proper non-empty prefix dir of the
+   path: none may be a symlink (explicit error; a symlink further up is resolved by the kernel
+   and ends in this or another error), and none but the deepest may be a regular file
+   (ENOTDIR is not IsNotExist, so it is returned); a missing one is fine *)
 Fixpoint check_dirs (f : fs) (acc rest : path) : bool :=
   match rest with
   | [] => true
   | x :: rest' =>
       match rest' with
       | [] => true
-      | _ :: _ => negb (is_link (fs_lookup f (acc ++ [x]))) && check_dirs f (acc ++ [x]) rest'
+      | _ :: rest'' =>
+          negb (is_link (fs_lookup f (acc ++ [x]))) &&
+          match rest'' with
+          | [] => true
+          | _ :: _ => negb (is_file (fs_lookup f (acc ++ [x])))
+          end &&
+          check_dirs f (acc ++ [x]) rest'
       end
   end.
 
@@ -329,32 +341,48 @@ Fixpoint link_paths (rel : path) (t : tree) : list path :=
   | Dir _ _ ch => flat_map (fun nc => link_paths (rel ++ [fst nc]) (snd nc)) ch
   end.
 
-(* no proper non-empty prefix of q is one of the link paths *)
-Fixpoint prefixes_clear (islink : path -> bool) (acc rest : path) : bool :=
+(* all paths at which the tree has a regular file *)
+Fixpoint file_paths (rel : path) (t : tree) : list path :=
+  match t with
+  | File _ _ _ => [rel]
+  | Link _ _ => []
+  | Dir _ _ ch => flat_map (fun nc => file_paths (rel ++ [fst nc]) (snd nc)) ch
+  end.
+
+(* no proper non-empty prefix of q is one of the link paths, and none but the deepest is a file path *)
+Fixpoint prefixes_clear (islink isfile : path -> bool) (acc rest : path) : bool :=
   match rest with
   | [] => true
   | x :: rest' =>
       match rest' with
       | [] => true
-      | _ :: _ => negb (islink (acc ++ [x])) && prefixes_clear islink (acc ++ [x]) rest'
+      | _ :: rest'' =>
+          negb (islink (acc ++ [x])) &&
+          match rest'' with
+          | [] => true
+          | _ :: _ => negb (isfile (acc ++ [x]))
+          end &&
+          prefixes_clear islink isfile (acc ++ [x]) rest'
       end
   end.
 
-(* relative links that stay inside the tree and do not pass through other links *)
-Fixpoint benignb (islink : path -> bool) (rel : path) (t : tree) : bool :=
+(* relative links that stay inside the tree and do not pass through other links or through
+   regular files ([islink]/[isfile] say where the whole tree has links and files) *)
+Fixpoint benignb (islink isfile : path -> bool) (rel : path) (t : tree) : bool :=
   match t with
-  | File _ _ _ => true
+  | File _ _ _ => isfile rel
   | Link tg _ =>
       islink rel && negb (is_abs tg) &&
       match lexnorm (parent rel ++ split_slash tg) with
       | None => false
-      | Some q => prefixes_clear islink [] q
+      | Some q => prefixes_clear islink isfile [] q
       end
-  | Dir _ _ ch => forallb (fun nc => benignb islink (rel ++ [fst nc]) (snd nc)) ch
+  | Dir _ _ ch => forallb (fun nc => benignb islink isfile (rel ++ [fst nc]) (snd nc)) ch
   end.
 
 Definition links_of (t : tree) (p : path) : bool := existsb (path_eqb p) (link_paths [] t).
-Definition benign_tree (t : tree) : bool := benignb (links_of t) [] t.
+Definition files_of (t : tree) (p : path) : bool := existsb (path_eqb p) (file_paths [] t).
+Definition benign_tree (t : tree) : bool := benignb (links_of t) (files_of t) [] t.
 Definition is_dir (t : tree) : bool := match t with Dir _ _ _ => true | _ => false end.
 
 (* ---------- descriptors and unpacking; the byte codecs are parameters ---------- *)
